@@ -121,10 +121,38 @@ fn users(c: &mut Ctx) {
                 c.count(if t >= 1 << 32 { "sigtimes_after_the_wrap" } else { "sigtimes_before_the_wrap" }, 1);
             }
         }
+        // the same times as a zone file carries them: the scanner has its own reading of both forms
+        // (`Timestamp::scan`, not `from_str`); expiration in date form, inception in date or integer form
+        let t2 = t + 30 * 86400;
+        let inc_int = rng.bool();
+        let zf = format!("example. 3600 IN RRSIG A 13 1 3600 {} {} 12345 example. AAAA\n", date14(t2), if inc_int { format!("{}", t as u32) } else { text.clone() });
+        let r = crate::ctx::catch(|| crate::p06::read_zonefile(zf.as_bytes(), None, false));
+        match r {
+            Err(pi) => c.violation(&format!("panic:{}", pi.site()), &format!("panic reading the zone file line {:?}: {}", zf, pi.msg), c.replay_of("users", idx, json!({"zonefile": zf}))),
+            Ok(Err(e)) => c.violation("sigtime:zonefile:refused", &format!("the zone file line {:?} is refused: {}", zf, e), c.replay_of("users", idx, json!({"zonefile": zf}))),
+            Ok(Ok(recs)) => {
+                let rd = recs.first().map(|r| r.4.clone()).unwrap_or_default();
+                if rd.len() < 18 {
+                    c.violation("sigtime:zonefile:short", "RRSIG read from a zone file has short RDATA", c.replay_of("users", idx, json!({"zonefile": zf})));
+                } else {
+                    let exp = u32::from_be_bytes([rd[8], rd[9], rd[10], rd[11]]);
+                    let inc = u32::from_be_bytes([rd[12], rd[13], rd[14], rd[15]]);
+                    if exp != t2 as u32 {
+                        let side = if t2 >= 1 << 32 { "after-the-wrap" } else { "before-the-wrap" };
+                        c.violation(&format!("sigtime:zonefile:date-form:{}", side), &format!("the expiration {} ({} s after the epoch) in a zone file reads as {}; RFC 4034 3.2 takes it modulo 2^32: {}", date14(t2), t2, exp, t2 as u32), c.replay_of("users", idx, json!({"zonefile": zf})));
+                    }
+                    if inc != t as u32 {
+                        let side = if inc_int { "integer-form" } else if t >= 1 << 32 { "date-form:after-the-wrap" } else { "date-form:before-the-wrap" };
+                        c.violation(&format!("sigtime:zonefile:{}", side), &format!("the inception of {:?} reads as {}, expected {}", zf, inc, t as u32), c.replay_of("users", idx, json!({"zonefile": zf})));
+                    }
+                    c.count(if t2 >= 1 << 32 { "zonefile_sigtimes_after_the_wrap" } else { "zonefile_sigtimes_before_the_wrap" }, 1);
+                }
+            }
+        }
         c.evals_n(2);
         c.sig(&("users", ref_cmp(a, b).map(|o| o as i8), b < a, t >> 29));
     }
-    for k in ["zone_diffs_forward", "zone_diffs_forward_across_the_wrap", "zone_diffs_backward_refused", "sigtimes_after_the_wrap", "sigtimes_before_the_wrap"] {
+    for k in ["zone_diffs_forward", "zone_diffs_forward_across_the_wrap", "zone_diffs_backward_refused", "sigtimes_after_the_wrap", "sigtimes_before_the_wrap", "zonefile_sigtimes_after_the_wrap", "zonefile_sigtimes_before_the_wrap"] {
         c.floor(k, 10);
     }
     #[cfg(feature = "crypto")]
